@@ -1,0 +1,9 @@
+//go:build verif
+
+package coregex
+
+import "github.com/coregx/coregex/meta"
+
+// VerifEngine returns the meta engine behind the Regex so that an external
+// monitor can read meta.Engine.VerifStateSizes. Compiled only with -tags verif.
+func (r *Regex) VerifEngine() *meta.Engine { return r.engine }
